@@ -166,6 +166,26 @@ class TracerTwin(BoundedCheck):
                     stored = np.array([traced[nm][2] for nm in names], dtype=float)
                     if list(tr.names) != names or not eq_arr(final, stored):
                         bad('the final snapshot equals the stored solution', 'c17.final-snapshot', stored.tolist(), final.tolist(), 'final_snapshot')
+        # a traced model that is copied and whose copy is solved again with tracing (a scenario run) keeps its own traces: the snapshots
+        # of the copy's run belong to the copy
+        if not case['repeat'] and case['entry'] in ('solve_t', 'solve_period') and o2[-1][0] == 'ret':
+            import copy as _copy
+            kw = dict(min_iter=case['min_iter'], max_iter=case['max_iter'], tol=TOL, failures='ignore', errors='ignore', trace=case['trace'])
+            mine = [(list(tr.index), np.array(tr.values, dtype=float, copy=True)) for tr in traced['trace']]
+            for route, mk in (('copy()', lambda m: m.copy()), ('copy.deepcopy', _copy.deepcopy), ('copy.copy', _copy.copy)):
+                dup = mk(traced)
+                try:
+                    with warnings.catch_warnings():
+                        warnings.simplefilter('ignore')
+                        dup.solve_t(2, **kw)
+                except Exception:  # noqa: BLE001
+                    pass
+                now = [(list(tr.index), np.array(tr.values, dtype=float, copy=True)) for tr in traced['trace']]
+                same = all(a[0] == b[0] and a[1].shape == b[1].shape and eq_arr(a[1], b[1]) for a, b in zip(mine, now))
+                if not same:
+                    bad('the trace of a solved period holds the snapshots of that solve (a traced solve of a copy writes the copy\'s traces)', f'c17.trace-shared-with-copy:{route}',
+                        [x[0] for x in mine][2], [x[0] for x in now][2], 'snapshot')
+                    break
         return out
 
 
@@ -199,6 +219,9 @@ class AliasTwin(BoundedCheck):
                 amap = dict(zip(names, targets))
                 for pref in ([], ['Y'], names[:1], names[:2] if k >= 2 else [], names[:1] + ['Y'], ['Y'] + names[:1], ['C'] + names[1:2]):
                     yield {'aliases': amap, 'preferred': list(pref)}
+                if k and targets[0] in self.VARS:
+                    # the first alias spelt like a private name (leading underscore): an alias like any other
+                    yield {'aliases': {('_' + a if a == names[0] else a): ('_' + t if t == names[0] else t) for a, t in amap.items()}, 'preferred': []}
                 if k and len(targets) == len(set(targets)):
                     # the same map with a variable listed under its own name as well (a self-map of a variable)
                     yield {'aliases': dict(amap, Y='Y'), 'preferred': []}
